@@ -1,6 +1,10 @@
 /* C06 whole-library program: N participants x R consecutive rounds of myth_barrier_wait on one
  * barrier initialised for N, run under the schedule controller.
- * usage: barrier_prog W N R PSEED      (schedule from CTL_* environment)
+ * usage: barrier_prog W N R PSEED [MODE NOISE]     (schedule from CTL_* environment)
+ *   MODE 0 (default): under the schedule controller, R <= 8.
+ *   MODE 1: free running on W real workers (no controller), R up to 65536 rounds, plus NOISE extra
+ *           threads that do nothing but yield until the participants are done (so that a yielding or
+ *           blocked participant really is switched out and may be stolen by another worker).
  * Oracle (the property, applied to the real code):
  *   - a participant returning from its k-th wait must see arrivals[k] == N (everybody has entered
  *     its k-th wait; arrivals[k] is bumped by each participant just before it calls wait);
@@ -14,8 +18,10 @@
 
 #define MAXN 8
 #define MAXR 8
+#define MAXFREE 65536
 static myth_barrier_t bar;
-static volatile long arrivals[MAXR], returned[MAXR], serials[MAXR];
+static volatile long arrivals[MAXFREE], returned[MAXFREE], serials[MAXFREE];
+static int mode, noise; static volatile int all_done;
 static volatile int bad; static char badmsg[200];
 static int N, R; static uint64_t pseed;
 
@@ -42,15 +48,15 @@ static void fail(const char * fmt, long a, long b, long c) {
 
 static void * body(void * arg) {
   long id = (long)arg;
-  ctl_name_thread((int)id);
+  if (!mode) ctl_name_thread((int)id);
   uint64_t r = mix(pseed * 1000 + id);
   for (int k = 0; k < R; k++) {
     r = mix(r);
     __sync_fetch_and_add(&arrivals[k], 1);
-    ctl_note("enter o1 %d", k);
+    if (!mode) ctl_note("enter o1 %d", k);
     int ret = myth_barrier_wait(&bar);
     long seen = arrivals[k];
-    ctl_note("pass o1 %d %d", k, ret);
+    if (!mode) ctl_note("pass o1 %d %d", k, ret);
     if (seen != N) fail("participant %ld returned from round %ld with only %ld arrivals", id, k, seen);
     if (ret == MYTH_BARRIER_SERIAL_THREAD) __sync_fetch_and_add(&serials[k], 1);
     else if (ret != 0) fail("participant %ld round %ld: wait returned %ld", id, k, ret);
@@ -62,23 +68,38 @@ static void * body(void * arg) {
   return (void *)(id + 100);
 }
 
+static void * noise_body(void * arg) {
+  (void)arg;
+  while (!all_done) myth_yield();
+  return 0;
+}
+
 int main(int argc, char ** argv) {
   int W = argc > 1 ? atoi(argv[1]) : 2;
+  mode = argc > 5 ? atoi(argv[5]) : 0; noise = argc > 6 ? atoi(argv[6]) : 0;
   N = argc > 2 ? atoi(argv[2]) : 3; R = argc > 3 ? atoi(argv[3]) : 3;
   pseed = argc > 4 ? strtoull(argv[4], 0, 10) : 1;
-  if (N < 1) N = 1; if (N > MAXN) N = MAXN; if (R > MAXR) R = MAXR;
+  if (N < 1) N = 1; if (N > MAXN) N = MAXN; if (R > (mode ? MAXFREE : MAXR)) R = (mode ? MAXFREE : MAXR);
+  if (noise > 16) noise = 16;
   myth_globalattr_t ga; myth_globalattr_init(&ga); myth_globalattr_set_n_workers(&ga, W);
   myth_init_ex(&ga);
-  ctl_init(W);
-  g_myth_verif_hook = bar_hook;
+  if (!mode) {
+    ctl_init(W);
+    g_myth_verif_hook = bar_hook;
+  }
   myth_barrier_init(&bar, 0, N);
-  { char kind[32]; snprintf(kind, sizeof kind, "barrier %d", N); ctl_name_obj_kind(&bar, 1, kind); }
-  ctl_name_thread(0);
-  ctl_activate();
-  myth_thread_t th[MAXN];
+  if (!mode) {
+    { char kind[32]; snprintf(kind, sizeof kind, "barrier %d", N); ctl_name_obj_kind(&bar, 1, kind); }
+    ctl_name_thread(0);
+    ctl_activate();
+  }
+  myth_thread_t th[MAXN], nth[16];
+  for (long i = 0; i < noise && mode; i++) nth[i] = myth_create(noise_body, 0);
   for (long i = 0; i < N; i++) th[i] = myth_create(body, (void *)(i + 1));
   for (long i = 0; i < N; i++) { void * r; myth_join(th[i], &r); if ((long)r != i + 101) fail("join value of participant %ld is %ld", i + 1, (long)r, 0); }
-  ctl_deactivate();
+  all_done = 1;
+  for (long i = 0; i < noise && mode; i++) myth_join(nth[i], 0);
+  if (!mode) ctl_deactivate();
   for (int k = 0; k < R; k++) {
     if (returned[k] != N) fail("round %ld: %ld of %ld participants returned", k, returned[k], N);
     if (serials[k] != 1) fail("round %ld: %ld participants got the serial-thread indicator (N=%ld)", k, serials[k], N);
